@@ -243,8 +243,8 @@ class ConcreteRun:
                 if not bool(a):
                     self.assume_ok = False
             self.claims = ob.run(I)
-        except core.AssumptionFailed:
-            self.assume_ok = False
+        except (core.AssumptionFailed, core.Outside, core.Budget):
+            self.assume_ok = False          # the point lies outside the obligation's stated bounds
         except Exception as e:
             self.exc = e
             self.tb = traceback.format_exc()
@@ -371,11 +371,14 @@ def external_check(constraints, names, timeout_s):
     return "sat", vals
 
 
-def _base_constraints(ob, path, assume_f):
+def _base_constraints(ob, path, assume_f, no_uf=False):
+    """no_uf: leave out the defining equations of uninterpreted-function applications (their results stay free reals): sound for
+    `unsat`, and keeps the non-linear back end out of the UF theory"""
     cs = list(core.bounds_constraints())
     cs += [a.z3() for a in assume_f]
     cs += [c.z3() for c in path.pc]
-    cs += [d[0] for d in path.defs if d[0] is not None]
+    ufd = getattr(path, "uf_defs", set()) if no_uf else set()
+    cs += [d[0] for i, d in enumerate(path.defs) if d[0] is not None and i not in ufd]
     return cs
 
 
@@ -503,7 +506,12 @@ def decide_path(ob, path, claims, assume_f, replay_fn, dump=None):
     if exact_needed:
         t_ = time.time()
         names = [n for n, _, _, _ in ob.inputs]
-        r2, vals2 = external_check(base + _exact_constraints(path, monos) + [negz], names, ob.exact_timeout_ms / 1000.0)
+        base_x = base
+        if getattr(path, "uf_defs", None):
+            base_x = _base_constraints(ob, path, assume_f, no_uf=True) + core.mono_facts(monos)
+        r2, vals2 = external_check(base_x + _exact_constraints(path, monos) + [negz], names, ob.exact_timeout_ms / 1000.0)
+        if r2 == "sat" and base_x is not base:
+            r2, vals2 = "unknown", None         # a model of the UF-free abstraction need not respect congruence
         pv.queries += 1
         pv.solver_s += time.time() - t_
         if r2 == "unsat":
@@ -744,6 +752,11 @@ def run_obligation(ob, seed=0, tier="quick", collect_functions=True):
                         pv.status = "inconclusive"
                         tb = "".join(traceback.format_exception(type(p.value), p.value, p.value.__traceback__)[-6:])
                         pv.detail = f"symbolic run raised {et}: {str(p.value)[:300]} ({pv.detail})\n{tb}"
+            elif p.kind == "outside":
+                pv = PathVerdict()
+                pv.status = "outside"
+                res.setdefault("outside_paths", 0)
+                res["outside_paths"] += 1
             else:
                 pv = PathVerdict()
                 pv.status = "inconclusive"
